@@ -129,6 +129,7 @@ def cmd_probe(req):
         if isinstance(v, dict):
             try:
                 kw = rename(req["type"], v)
+                row["renamed"] = kw
                 row["name"] = attempt(lambda: cls(**kw))
             except BaseException as exc:  # noqa
                 row["name"] = {"ok": False, "exc": ["rename:" + type(exc).__name__, str(exc)[:300]]}
